@@ -101,6 +101,8 @@ def parseFault (s : String) : Option (Nat × Fault) :=
   | [i, k] => do
     let idx ← i.toNat?
     if k.startsWith "cut" then pure (idx, .cut (← (k.drop 3).toString.toNat?))
+    -- OffsetOutOfRange followed by an unanswered ListOffsets: readOffsets fails at its deadline → conn.Close(); break readLoop
+    else if k == "err1h" then pure (idx, .hang)
     else if k.startsWith "err" then pure (idx, .err (← (k.drop 3).toString.toNat?))
     else if k == "hang" then pure (idx, .hang)
     else if k == "move" then pure (idx, .move)
